@@ -53,8 +53,11 @@ def handle (line : String) : String :=
     match Sem.parseInputs ins with
     | none => "bad-case inputs"
     | some inputs =>
-      let wfb := match IR.parseModule b with | some m => IRValid.validate m | none => ["before does not parse"]
-      let wfa := match IR.parseModule a with | some m => IRValid.validate m | none => ["after does not parse"]
+      -- C13 judges handles, ranges and availability; whether a literal / variable expression may sit inside
+      -- an emit range is a lowering convention judged under C09 only
+      let relevant (es : List String) := es.filter (fun e => (e.splitOn "needs no emission").length == 1)
+      let wfb := relevant (match IR.parseModule b with | some m => IRValid.validate m | none => ["before does not parse"])
+      let wfa := relevant (match IR.parseModule a with | some m => IRValid.validate m | none => ["after does not parse"])
       let wf := if !wfb.isEmpty then "before-" ++ wfClass wfb else wfClass wfa
       let rb := runIR b inputs
       if rb.startsWith "skip" then s!"{wf} | skip before {rb}"
